@@ -582,3 +582,89 @@ Example C13_request_exact_in_any_sequence_nonvacuous :
   exists w, nth_error (sequence_wires [([(bs "A", bs "1")], Some (bs "first body")); ([(bs "SCRIPT_NAME", bs "/x.php")], None)]) 1 = Some (Ok w) /\
             responder_receive w = Some (1, 0, [(bs "SCRIPT_NAME", bs "/x.php")], []).
 Proof. eexists. split; vm_compute; reflexivity. Qed.
+
+(* ---------- the header block reader (textproto.ReadMIMEHeader as Request uses it) ---------- *)
+Require Import V.C13_HeadProofs.
+
+(* What the client receives — status, header multimap, body, or a refusal — is a function of the
+   responder's STDOUT byte stream ONLY: for EVERY two framings of the same output (record sizes,
+   padding, stderr records at any position, empty records in mid-stream, any bytes after END_REQUEST)
+   and EVERY two sequences of caller buffers that reach the end, the bytes handed to the header
+   reader are the same and so is everything made of them; stderr is complete, on the side. *)
+Theorem C13_response_is_function_of_stdout :
+  forall recs1 recs2 tail1 tail2 sizes1 sizes2 d1 e1 s1 d2 e2 s2,
+  Forall valid_rec recs1 -> Forall valid_rec recs2 ->
+  stdout_of recs1 = stdout_of recs2 ->
+  (forall m, In m sizes1 -> (1 <= m)%nat) -> (forall m, In m sizes2 -> (1 <= m)%nat) ->
+  (length (stdout_of recs1) + length recs1 < length sizes1)%nat ->
+  (length (stdout_of recs2) + length recs2 < length sizes2)%nat ->
+  sr_read_all (sr_init (wire_of recs1 ++ enc_rec end_rec ++ tail1)) sizes1 [] = Ok (d1, e1, s1) ->
+  sr_read_all (sr_init (wire_of recs2 ++ enc_rec end_rec ++ tail2)) sizes2 [] = Ok (d2, e2, s2) ->
+  d1 = d2 /\ client_view d1 = client_view (stdout_of recs1) /\ client_view d1 = client_view d2 /\
+  stderr_of s1 = contents_of T_STDERR recs1 /\ stderr_of s2 = contents_of T_STDERR recs2.
+Proof. exact client_view_function_of_stdout. Qed.
+Print Assumptions C13_response_is_function_of_stdout.
+
+Example C13_response_is_function_of_stdout_nonvacuous :
+  let out := bs "status: 404 Not Found" ++ [10] ++ bs "x-a: 1" ++ [13; 10] ++ bs "  more" ++ [10; 10] ++ bs "body" in
+  let recs1 := [(6, out, 0)] in
+  let recs2 := [(7, bs "warn", 3); (6, firstn 3 out, 5); (6, [], 0); (7, [], 1); (6, skipn 3 out, 255); (6, [], 0)] in
+  stdout_of recs1 = stdout_of recs2 /\
+  sr_read_all (sr_init (wire_of recs1 ++ enc_rec end_rec)) (repeat 4096%nat 40) [] = Ok (out, Some REOF, {| s_conn := [0;0;0;0;0;0;0;0]; s_buf := []; s_stderr := [] |}) /\
+  (exists s2, sr_read_all (sr_init (wire_of recs2 ++ enc_rec end_rec ++ bs "junk")) (repeat 7%nat 60) [] = Ok (out, Some REOF, s2)) /\
+  client_view out = HResp 404 [(bs "Status", bs "404 Not Found"); (bs "X-A", bs "1 more")] (bs "body").
+Proof. vm_compute. repeat split; try reflexivity. eexists; reflexivity. Qed.
+
+(* END_REQUEST ends the stream whatever it carries: any appStatus / protocolStatus, any content length,
+   any padding (its body is not read) *)
+Theorem C13_end_request_status_ignored : forall c pad rest,
+  record_read (enc_rec (T_END, c, pad) ++ rest) = Ok (RErr REOF (c ++ repeat 170 (N.to_nat pad) ++ rest)).
+Proof. exact end_request_any_status. Qed.
+Print Assumptions C13_end_request_status_ignored.
+
+Theorem C13_end_request_ends_the_read : forall c pad rest m se,
+  (1 <= m)%nat ->
+  exists s', sr_read {| s_conn := enc_rec (T_END, c, pad) ++ rest; s_buf := []; s_stderr := se |} m = Ok ([], Some REOF, s')
+             /\ s_stderr s' = se.
+Proof. exact end_request_ends_the_read. Qed.
+Print Assumptions C13_end_request_ends_the_read.
+
+Example C13_end_request_ends_the_read_nonvacuous :
+  fst (fst (match sr_read {| s_conn := enc_rec (T_END, [0; 0; 0; 9; 2; 0; 0; 0], 7) ++ bs "x"; s_buf := []; s_stderr := [] |} 1 with
+            | Ok x => x | Panic => (bs "panic", None, sr_init []) end)) = [] /\ (1 <= 1)%nat.
+Proof. vm_compute. split; [reflexivity | lia]. Qed.
+
+(* the status the client gets is always a three-digit code; without a Status field it is 200 *)
+Theorem C13_status_is_three_digits : forall out st f b, client_view out = HResp st f b -> 100 <= st <= 999.
+Proof. exact client_view_status. Qed.
+Print Assumptions C13_status_is_three_digits.
+
+Example C13_status_is_three_digits_nonvacuous :
+  client_view (bs "Status: +201 Created" ++ [10; 10]) = HResp 201 [(bs "Status", bs "+201 Created")] [] /\
+  client_view (bs "Status: 1000" ++ [10; 10]) = HFail /\ client_view (bs "Status: -200" ++ [10; 10]) = HFail.
+Proof. vm_compute. repeat split; reflexivity. Qed.
+
+Theorem C13_no_status_is_200_partial : forall fields,
+  first_value (bs "Status") fields = [] -> status_of fields = Some 200.
+Proof. exact no_status_is_200. Qed.
+Print Assumptions C13_no_status_is_200_partial.
+
+(* "a Location field without a Status field is a redirect (302)" (RFC 3875 6.2.3/6.2.4) is false of the
+   code: the response goes out as 200 with the Location field *)
+Theorem C13_location_without_status_is_redirect_refuted :
+  exists out v, client_view out = HResp 200 [(bs "Location", v)] [] /\ first_value (bs "Status") [(bs "Location", v)] = [].
+Proof. exists (bs "location: /moved" ++ [13; 10; 13; 10]), (bs "/moved"). vm_compute. split; reflexivity. Qed.
+Print Assumptions C13_location_without_status_is_redirect_refuted.
+
+(* the reader on the forms the property names (evaluated examples, not general claims): bare LF and CRLF
+   mixed, continuation lines joined by one space, repeated keys in arrival order, keys canonicalised,
+   a key with a space kept as written, a line without colon / leading white space / a control byte
+   in a value refuse the whole block *)
+Example C13_mime_head_forms :
+  mime_head (bs "set-cookie: a=1" ++ [13; 10] ++ bs "SET-COOKIE:b=2" ++ [10] ++ bs "x-long: one" ++ [10; 9] ++ bs " two  " ++ [13; 10; 32] ++ bs "three" ++ [10] ++ bs "odd key: v" ++ [10; 13; 10] ++ bs "body")
+    = MHead [(bs "Set-Cookie", bs "a=1"); (bs "Set-Cookie", bs "b=2"); (bs "X-Long", bs "one two three"); (bs "odd key", bs "v")] (bs "body") /\
+  mime_head (bs "X-A: 1" ++ [10] ++ bs "no colon here" ++ [10; 10]) = MErr /\
+  mime_head (bs " X-A: 1" ++ [10; 10]) = MErr /\
+  mime_head (bs "X-A: a" ++ [1; 10; 10]) = MErr /\
+  mime_head (bs "X(a): 1" ++ [10; 10]) = MErr.
+Proof. vm_compute. repeat split; reflexivity. Qed.
